@@ -170,7 +170,7 @@ theorem unassign_step (s : State) (m : Move) (h : Inv s) (ha : assumed s m = tru
   | filter ns name nodes ch fault => exact UnassignsWithin.of_plog_eq _ (filter_plog _ ns name nodes ch)
   | preempt ns name nodes ch fault => exact UnassignsWithin.of_plog_eq _ (preempt_plog _ ns name nodes ch)
   | bind ns name uid node ch f pf =>
-    have := (bind_spec (withFaults s f pf) ns name uid node ch (h0 f pf) (assumed_bind ha)).2.2
+    have := (bind_spec (withFaults s f pf) ns name uid node ch (h0 f pf) (assumed_bind ha)).2.2.1
     exact this.mono (fun _ hf => hf.elim)
   | deliver i f pf => exact (deliver_spec _ i (h0 f pf)).2.2
   | resync order f pf => exact (resync_spec _ order (h0 f pf)).2.2
@@ -190,7 +190,10 @@ theorem unassign_step (s : State) (m : Move) (h : Inv s) (ha : assumed s m = tru
     apply UnassignsWithin.of_plog_eq; simp only [step]; split
     · rfl
     · split <;> rfl
-  | adminUnreserve ip => apply UnassignsWithin.of_plog_eq; simp only [step]; split <;> rfl
+  | adminUnreserve ip =>
+    apply UnassignsWithin.of_plog_eq; simp only [step]; split
+    · rfl
+    · split <;> rfl
   | syncPodIPs f => exact UnassignsWithin.of_plog_eq _ (syncPodIPs_spec _ (h0 f 0)).2.2
   | apiRelease ip k f pf => exact (apiRelease_spec _ ip k (h0 f pf) (assumed_apiRelease ha)).2.2
   | reload pools fault =>
